@@ -22,6 +22,9 @@ func zzExecBlockWith(lg *Ledger, h uint64, parent *types.Hash, kind int, v uint8
 	switch kind {
 	case 0:
 		lg.SetState(zzAddrs[0], []byte("a"), []byte{v}, nil)
+	case 3:
+		// storage only, on an account that has its record (balance) from an earlier block
+		lg.SetState(zzAddrs[1], []byte("b"), []byte{v}, nil)
 	default:
 		lg.SetBalance(zzAddrs[1], big.NewInt(int64(100+h)))
 		lg.SetState(zzAddrs[1], []byte("b"), []byte{v}, nil)
@@ -57,13 +60,20 @@ func ZZH_C11_crash() {
 	}
 	h := hs[zz.Choice("height", len(hs))]
 	parent := &types.Hash{}
+	kind := zz.Choice("lastBlockKind", 4)
+	if kind == 3 && h == 1 {
+		kind = 1
+	}
 	for i := uint64(1); i < h; i++ {
 		// (earlier blocks are concrete: the crashed block carries the symbolic content)
-		bd := zzExecBlockWith(lg, i, parent, 0, uint8(i))
+		k0 := 0
+		if kind == 3 && i == h-1 {
+			k0 = 1 // the block before gives account 1 its record and a first storage value
+		}
+		bd := zzExecBlockWith(lg, i, parent, k0, uint8(i))
 		lg.PersistBlockData(bd)
 		parent = bd.Block.BlockHash
 	}
-	kind := zz.Choice("lastBlockKind", 3)
 	v := zz.U8("vLast")
 	bd := zzExecBlockWith(lg, h, parent, kind, v)
 	// per store, the durable write events (batch commits, direct puts) form a prefix:
@@ -141,7 +151,12 @@ func ZZH_C11_crash() {
 	if head == h-1 {
 		// nothing of the lost block is left in the state: its storage / code / balance are gone
 		// and executing it again gives the state root the uncrashed execution computed
-		if kind != 0 {
+		if kind == 3 {
+			// the lost block only wrote storage of account 1: its record and its earlier value are intact
+			okb, vb := lg2.GetState(zzAddrs[1], []byte("b"))
+			zz.Assert("C11.old.earlier-storage-value-back", okb && len(vb) == 1 && vb[0] == uint8(h-1))
+			zz.Assert("C11.old.account-record-kept", lg2.GetBalance(zzAddrs[1]).Cmp(big.NewInt(int64(100+h-1))) == 0)
+		} else if kind != 0 {
 			okb, _ := lg2.GetState(zzAddrs[1], []byte("b"))
 			zz.Assert("C11.old.no-leftover-storage", !okb)
 			zz.Assert("C11.old.no-leftover-code", lg2.GetCode(zzAddrs[1]) == nil)
